@@ -1,9 +1,9 @@
 """C16 / C11: descriptor keys (src/descriptor/key.rs) -- which public key a descriptor key stands for (Verus).
 
 Verified text (verbatim from /repo): `DefiniteDescriptorKey::{derive_public_key, new, master_fingerprint,
-full_derivation_path, as_descriptor_public_key, into_descriptor_public_key}`, `DescriptorPublicKey::{has_wildcard,
-has_hardened_step, is_multipath, master_fingerprint, full_derivation_path, derivation_path, wildcard, xkey_network,
-at_derivation_index, into_single_keys}`, `DerivPaths::{new, paths, into_paths}`, the `MiniscriptKey` impls of
+full_derivation_path(s), as_descriptor_public_key, into_descriptor_public_key}`, `DescriptorPublicKey::{has_wildcard,
+has_hardened_step, is_multipath, master_fingerprint, full_derivation_path(s), derivation_path(s), wildcard,
+xkey_network, at_derivation_index, into_single_keys}`, `DerivPaths::{new, paths, into_paths}`, the `MiniscriptKey` impls of
 `SinglePub`, `DescriptorXKey`, `DescriptorMultiXKey`, `DescriptorPublicKey`, `DefiniteDescriptorKey`
 ({is_uncompressed, is_x_only_key, num_der_paths}), `ToPublicKey for DefiniteDescriptorKey::to_public_key`, and
 `MiniscriptKey for bitcoin::PublicKey::is_uncompressed` (src/lib.rs).  The type definitions (`DescriptorPublicKey`,
@@ -34,10 +34,11 @@ LIB = "src/lib.rs"
 DROPPED = [
     "c16_keys: trait impls (`impl MiniscriptKey for ..`, `impl ToPublicKey for DefiniteDescriptorKey`) are emitted as inherent impl blocks (Verus allows no `requires` on trait-impl methods and the stubs need no trait machinery); the associated hash types / to_sha256.. conversions are dropped",
     "c16_keys: DescriptorPublicKey::master_fingerprint: the HASH160 engine block of the origin-less single-key arm (XKeyIdentifier::engine / write_into / from_engine / [..4].try_into()) is replaced by a call to the stub `single_key_fingerprint` (R9): its result is an uninterpreted function of the key, the clause for that arm only says which key is hashed",
+    "c16_keys: full_derivation_paths: the closure `|p| origin_path.extend(p)` gets a parameter type and an `ensures` (R10); derivation_paths: `paths().clone()` -> stub `clone_paths` with `ensures r@ == v@` (R13)",
     "c16_keys: into_single_keys: `origin.clone()` -> stub `clone_origin(&origin)` with `ensures r == origin` (R13, derived Clone of Option<(Fingerprint, DerivationPath)>); the closure given to `map` gets a parameter type and an `ensures` (R10; Verus checks the closure body against it and vstd's specs of into_iter / map / collect carry it to the result)",
     "c16_keys: has_hardened_step: the two `for` loops get a ghost iterator name and invariants (R10: `for p in it: paths invariant ..`), a ghost witness before `return true`, and `#[verifier::loop_isolation(false)]`",
     "c16_keys: `&xpk.derivation_path.as_ref()` is passed to a `derive_pub` stub taking `&&[ChildNumber]` (the real one is generic in `P: AsRef<[ChildNumber]>`, instantiated at `&[ChildNumber]` by this very call)",
-    "c16_keys: NOT verified (text parsing / formatting / secret keys): FromStr / Display impls, parse_key_origin, parse_xkey_deriv, fmt_derivation_path(s), maybe_fmt_master_id, DescriptorSecretKey, SinglePriv, *::to_public (secp, iterator adapters), serde impls; DescriptorXKey::matches, DescriptorPublicKey::{full_derivation_paths, derivation_paths} and DefiniteDescriptorKey::full_derivation_paths are signature-only stubs with an arbitrary result (so that code motion into them is judged, not a weave error)",
+    "c16_keys: NOT verified (text parsing / formatting / secret keys): FromStr / Display impls, parse_key_origin, parse_xkey_deriv, fmt_derivation_path(s), maybe_fmt_master_id, DescriptorSecretKey, SinglePriv, *::to_public (secp, iterator adapters), serde impls; DescriptorXKey::matches (iterator chains over a generic key) is a signature-only stub with an arbitrary result (so that code motion into it is judged, not a weave error)",
     "c16_keys: the derivation itself (CKDpub: HMAC-SHA512 + point addition), key serialisation and HASH160 are uninterpreted; the clauses say WHICH key / path / flag is used",
 ]
 
@@ -150,7 +151,7 @@ pub mod bip32 {
         #[verifier::external_body]
         pub fn child(&self, cn: ChildNumber) -> (r: DerivationPath) ensures r.steps() == self.steps().push(cn) { unimplemented!() }
         #[verifier::external_body]
-        pub fn len(&self) -> (r: usize) ensures r == self.steps().len() { unimplemented!() }
+        pub fn len(&self) -> (r: usize) ensures r == self.steps().len(), r <= usize::MAX / 8 { unimplemented!() }   // a Vec of 8-byte child numbers
         #[verifier::external_body]
         pub fn is_empty(&self) -> (r: bool) ensures r == (self.steps().len() == 0) { unimplemented!() }
     }
@@ -213,6 +214,11 @@ impl vstd::std_specs::cmp::PartialEqSpecImpl for Wildcard {
 #[verifier::external_body]
 fn clone_origin(o: &Option<(bip32::Fingerprint, bip32::DerivationPath)>) -> (r: Option<(bip32::Fingerprint, bip32::DerivationPath)>)
     ensures r == *o,
+{ unimplemented!() }
+// R13: std Clone of Vec<DerivationPath>
+#[verifier::external_body]
+fn clone_paths(v: &Vec<bip32::DerivationPath>) -> (r: Vec<bip32::DerivationPath>)
+    ensures r@ == v@,
 { unimplemented!() }
 // R9: the key-identifier engine of master_fingerprint (HASH160 of the serialized key, first four bytes)
 uninterp spec fn key_identifier_fp(k: SinglePubKey) -> bip32::Fingerprint;
@@ -364,6 +370,8 @@ def build(repo):
     vf.trust("Xpub::derive_pub (external_body, uninterpreted ckd_pub_path)",
              "bitcoin::bip32::Xpub::derive_pub: Err(CannotDeriveFromHardenedKey) on a hardened step, Err(MaximumDepthExceeded) when depth + steps > 255, "
              "otherwise Ok of the iterated CKDpub; the Secp256k1 error (invalid tweak, probability 2^-127) is assumed away as 'cryptographically unreachable'")
+    vf.trust("vstd's specifications of Vec::into_iter / slice::iter / Iterator::map / Iterator::collect / Vec indexing by `..` / Result::ok / Option::ok_or and of `for` over slice iterators",
+             "Verus standard library; into_single_keys, full_derivation_paths and has_hardened_step are verified through them WITHOUT loop rewrites")
     vf.trust("assume_specification core::slice::from_ref", "std: a one-element slice of the referenced value")
 
     # ---- the real type definitions ------------------------------------------------------------------
@@ -379,6 +387,7 @@ def build(repo):
     vf.raw(GLUE)
     vf.trust("impl PartialEqSpecImpl for Wildcard", "derived PartialEq of a field-less enum is structural equality")
     vf.trust("clone_origin (external_body, r == *o)", "R13: derived / std Clone of Option<(Fingerprint, DerivationPath)> returns an equal value")
+    vf.trust("clone_paths (external_body, r@ == v@)", "R13: Vec<DerivationPath>::clone returns an element-wise equal vector")
     vf.trust("single_key_fingerprint (external_body, uninterpreted)", "R9: stands for the HASH160 key-identifier engine block of master_fingerprint; only 'a function of the key' is assumed")
     vf.raw(ORACLE)
 
@@ -448,9 +457,10 @@ def build(repo):
         vf.fn(KEY, DP + "at_derivation_index", qual="DescriptorPublicKey", props=PROPS, rewrites=[
             lit("R10", "DefiniteDescriptorKey::new(definite)", "proof { lemma_has_hardened_push_all(); }\n        DefiniteDescriptorKey::new(definite)")], contract=Contract(ensures=[
             C("raw_key_unchanged", "self is Single ==> r is Ok && r->Ok_0.0 == self"),
-            C("xpub_without_wildcard_unchanged", "self matches DescriptorPublicKey::XPub(x) ==> (x.wildcard is None ==> (r is Ok <==> !bip32::has_hardened(x.derivation_path.steps())) && (r is Ok ==> r->Ok_0.0 == self))"),
+            C("xpub_without_wildcard_unchanged", "self matches DescriptorPublicKey::XPub(x) ==> (x.wildcard is None ==> (r is Ok ==> r->Ok_0.0 == self) && (derivable(self) ==> r is Ok))"),
             C("wildcard_replaced_by_exactly_the_index", "self matches DescriptorPublicKey::XPub(x) ==> (x.wildcard is Unhardened && r is Ok ==> wildcard_replaced(x, bip32::ChildNumber::Normal { index }, r->Ok_0.0))"),
-            C("unhardened_wildcard_ok_iff", "self matches DescriptorPublicKey::XPub(x) ==> (x.wildcard is Unhardened ==> (r is Ok <==> index < 0x8000_0000u32 && !bip32::has_hardened(x.derivation_path.steps())))"),
+            C("unhardened_wildcard_ok_only_if", "self matches DescriptorPublicKey::XPub(x) ==> (x.wildcard is Unhardened && r is Ok ==> index < 0x8000_0000u32 && !bip32::has_hardened(x.derivation_path.steps()))"),
+            C("unhardened_wildcard_ok_if", "self matches DescriptorPublicKey::XPub(x) ==> (x.wildcard is Unhardened && index < 0x8000_0000u32 && !bip32::has_hardened(x.derivation_path.steps()) && x.xkey.depth as int + x.derivation_path.steps().len() + 1 <= 255 ==> r is Ok)"),
             C("hardened_index_is_an_error", "key_has_wildcard(self) && !(self is MultiXPub) && index >= 0x8000_0000u32 ==> r == Err::<DefiniteDescriptorKey, NonDefiniteKeyError>(NonDefiniteKeyError::HardenedStep)"),
             C("hardened_step_is_an_error", "key_has_hardened_step(self) && !(self is MultiXPub) ==> r == Err::<DefiniteDescriptorKey, NonDefiniteKeyError>(NonDefiniteKeyError::HardenedStep)"),
             C("hardened_wildcard_is_an_error", "self matches DescriptorPublicKey::XPub(x) ==> (x.wildcard is Hardened ==> r == Err::<DefiniteDescriptorKey, NonDefiniteKeyError>(NonDefiniteKeyError::HardenedStep))"),
@@ -476,9 +486,24 @@ def build(repo):
             C("more_than_one_only_for_multipath", "!(*self is MultiXPub) ==> r <= 1"),
             C("xpub_has_one_path", "*self is XPub ==> r == 1"),
         ]))
-        stubbed = [n for n in ("full_derivation_paths", "derivation_paths") if stub_fn(vf, KEY, DP + n)]
+        paths_rw = [sub("R10", r"(?s)\.map\(\|p\|\s*(.*?)\)(\s*)\.collect\(\)",
+                        r".map(|p: &bip32::DerivationPath| -> (q: bip32::DerivationPath) ensures q.steps() == origin_path.steps() + p.steps() { \1 })\2.collect()")]
+        vf.fn(KEY, DP + "full_derivation_paths", qual="DescriptorPublicKey", props=PROPS, rewrites=paths_rw, contract=Contract(ensures=[
+            C("one_path_per_alternative", "*self matches DescriptorPublicKey::MultiXPub(m) ==> r@.len() == multi_paths(m).len()"),
+            C("jth_is_origin_path_then_jth_alternative", "*self matches DescriptorPublicKey::MultiXPub(m) ==> (forall|j: int| 0 <= j < r@.len() ==> (#[trigger] r@[j]).steps() == origin_steps(m.origin) + multi_paths(m)[j].steps())"),
+            C("single_path_key_has_one_full_path", "!(*self is MultiXPub) ==> r@.len() == 1"),
+            C("xpub_origin_path_then_key_path", "*self matches DescriptorPublicKey::XPub(x) ==> r@.len() == 1 && r@[0].steps() == origin_steps(x.origin) + x.derivation_path.steps()"),
+        ]))
+        vf.fn(KEY, DP + "derivation_paths", qual="DescriptorPublicKey", props=PROPS, rewrites=[
+            lit("R13", "xpub.derivation_paths.paths().clone()", "clone_paths(xpub.derivation_paths.paths())")], contract=Contract(ensures=[
+            C("multipath_alternatives", "*self matches DescriptorPublicKey::MultiXPub(m) ==> r@ == multi_paths(m)"),
+            C("xpub_key_path", "*self matches DescriptorPublicKey::XPub(x) ==> r@.len() == 1 && r@[0].steps() == x.derivation_path.steps()"),
+            C("raw_key_empty_path", "*self is Single ==> r@.len() == 1 && r@[0].steps().len() == 0"),
+        ]))
+        stubbed = []
     with vf.block("impl<K: InnerXKey> DescriptorXKey<K>"):
-        if stub_fn(vf, KEY, "impl:DescriptorXKey<K>#0/fn:matches"):
+        # `impl DescriptorXKey<bip32::Xpriv>` and `impl<K: InnerXKey> DescriptorXKey<K>` both match the generics-insensitive anchor
+        if any(stub_fn(vf, KEY, "impl:DescriptorXKey<K>#%d/fn:matches" % n) for n in range(4)):
             stubbed.append("DescriptorXKey::matches")
 
     # ---- DefiniteDescriptorKey ---------------------------------------------------------------------------------
@@ -487,10 +512,14 @@ def build(repo):
     ERR = "Err::<DefiniteDescriptorKey, NonDefiniteKeyError>(NonDefiniteKeyError::%s)"
     with vf.block("impl DefiniteDescriptorKey"):
         vf.fn(KEY, DD + "new", qual="DefiniteDescriptorKey", props=PROPS, contract=Contract(ensures=[
-            C("ok_iff_definite", "r is Ok <==> definite(key)", ("C16", "C11")),
+            # (the two directions are stated separately so that a repair of `new` that also rejects undeliverable depths keeps them)
+            C("ok_only_if_definite", "r is Ok ==> definite(key)", ("C16", "C11")),
+            C("derivable_key_is_accepted", "derivable(key) ==> r is Ok", ("C16",)),
             C("wraps_the_key", "r is Ok ==> r->Ok_0.0 == key"),
             C("error_names_a_true_cause", "(r == %s ==> key_has_wildcard(key)) && (r == %s ==> key_has_hardened_step(key)) && (r == %s ==> key is MultiXPub)" % (ERR % "Wildcard", ERR % "HardenedStep", ERR % "Multipath")),
-            C("error_is_one_of_the_three_causes", "r is Err ==> r->Err_0 is Wildcard || r->Err_0 is HardenedStep || r->Err_0 is Multipath"),
+            C("wildcard_is_reported", "key_has_wildcard(key) ==> r == %s" % (ERR % "Wildcard")),
+            C("hardened_step_is_reported", "!key_has_wildcard(key) && key_has_hardened_step(key) ==> r == %s" % (ERR % "HardenedStep")),
+            C("multipath_is_reported", "!key_has_wildcard(key) && !key_has_hardened_step(key) && key is MultiXPub ==> r == %s" % (ERR % "Multipath")),
             # the invariant `new` establishes must be enough for derive_public_key's `unreachable!` arms (C11)
             C("invariant_suffices_for_derive_public_key", "r is Ok ==> derivable(r->Ok_0.0)", ("C11",)),
         ]))
@@ -510,8 +539,8 @@ def build(repo):
             C("xpub_origin_path_then_key_path", "self.0 matches DescriptorPublicKey::XPub(x) ==> r is Some && r->Some_0.steps() == origin_steps(x.origin) + x.derivation_path.steps()")]))
         vf.fn(KEY, DD + "as_descriptor_public_key", qual="DefiniteDescriptorKey", props=PROPS, contract=Contract(ensures=[C("the_key", "*r == self.0")]))
         vf.fn(KEY, DD + "into_descriptor_public_key", qual="DefiniteDescriptorKey", props=PROPS, contract=Contract(ensures=[C("the_key", "r == self.0")]))
-        if stub_fn(vf, KEY, DD + "full_derivation_paths"):
-            stubbed.append("DefiniteDescriptorKey::full_derivation_paths")
+        vf.fn(KEY, DD + "full_derivation_paths", qual="DefiniteDescriptorKey", props=PROPS, contract=Contract(ensures=[
+            C("xpub_origin_path_then_key_path", "self.0 matches DescriptorPublicKey::XPub(x) ==> r@.len() == 1 && r@[0].steps() == origin_steps(x.origin) + x.derivation_path.steps()")]))
         # MiniscriptKey / ToPublicKey for DefiniteDescriptorKey
         vf.fn(KEY, MD + "is_uncompressed", qual="DefiniteDescriptorKey", props=PROPS, contract=Contract(ensures=[C("uncompressed_iff_raw_65_byte_key", "r == key_uncompressed(self.0)")]))
         vf.fn(KEY, MD + "is_x_only_key", qual="DefiniteDescriptorKey", props=PROPS, contract=Contract(ensures=[
